@@ -1019,6 +1019,15 @@ def _labels_for(m, mode, rng_seed):
     if mode == "degree":
         n = m.neighbours()
         return {a: m.atoms[a]["atom_type"] * 10 + len(n[a]) for a in m.atoms}
+    if isinstance(mode, str) and mode.startswith("marked:"):
+        # "which mappings take the marked atom of the first graph onto the
+        # marked atom of the second": the two labellings differ even when the
+        # two graphs are one and the same object
+        i = int(mode.split(":")[1 + rng_seed])
+        atoms = m.sorted_atoms()
+        lab = {a: m.atoms[a]["atom_type"] for a in atoms}
+        lab[atoms[i % len(atoms)]] += 1000
+        return lab
     return None
 
 
@@ -1049,7 +1058,7 @@ def enum_open(w, op):
             return
         big = True
     lab = op.get("labels")
-    l1, l2 = _labels_for(m1, lab, 0), _labels_for(m2, lab, 0)
+    l1, l2 = _labels_for(m1, lab, 0), _labels_for(m2, lab, 1)
     gs = Slot("gen")
     gs.data.update(inputs=[op["g1"], op["g2"]], yielded=[], kind="enum", stereo=stereo,
                    changes=changes, labels=lab, done=False, m1=m1.clone(), m2=m2.clone())
@@ -1089,12 +1098,22 @@ def _enum_oracle(gs):
     lab = d["labels"]
     labels = None
     if lab is not None:
-        labels = (_labels_for(m1, lab, 0), _labels_for(m2, lab, 0))
+        labels = (_labels_for(m1, lab, 0), _labels_for(m2, lab, 1))
     return brute.all_isomorphisms(m1, m2, labels=labels, stereo=d["stereo"], changes=d["changes"])
 
 
 def _fz(mapping):
     return tuple(sorted(mapping.items()))
+
+
+def _same_labelling(d):
+    """the mappings of a graph onto itself form a group only if both sides
+    carry the same labelling (a marked atom sent onto another one gives a
+    coset)"""
+    lab = d["labels"]
+    if lab is None:
+        return True
+    return _labels_for(d["m1"], lab, 0) == _labels_for(d["m2"], lab, 1)
 
 
 def _enum_tag(d):
@@ -1109,7 +1128,7 @@ def _enum_check_big(w, gs, final):
     m1, m2 = d["m1"], d["m2"]
     labels = None
     if d["labels"] is not None:
-        labels = (_labels_for(m1, d["labels"], 0), _labels_for(m2, d["labels"], 0))
+        labels = (_labels_for(m1, d["labels"], 0), _labels_for(m2, d["labels"], 1))
     got = [_fz(x) for x in d["yielded"]]
     if len(set(got)) != len(got):
         w.report({"C05"}, f"enum|duplicate-mapping|{tag}|{cls}", "")
@@ -1119,7 +1138,7 @@ def _enum_check_big(w, gs, final):
             w.report({"C05"}, f"enum|invalid-mapping|{tag}|{cls}",
                      repr({"mapping": _fz(x), "g1": m1.view(), "g2": m2.view()})[:2500])
             return False
-    if final and got and (d["inputs"][0] == d["inputs"][1]):
+    if final and got and (d["inputs"][0] == d["inputs"][1]) and _same_labelling(d):
         S = set(got)
         ident = _fz({a: a for a in m1.atoms})
         if ident not in S:
@@ -1281,7 +1300,7 @@ def _on_exhausted(w, gs):
         if _enum_check_prefix(w, gs, final=True) and not gs.data.get("big"):
             d = gs.data
             # group closure for a graph against itself
-            if d["inputs"][0] == d["inputs"][1] or d["m1"].digest_tuple() == d["m2"].digest_tuple():
+            if (d["inputs"][0] == d["inputs"][1] or d["m1"].digest_tuple() == d["m2"].digest_tuple()) and _same_labelling(d):
                 maps = [dict(x) for x in d["yielded"]]
                 S = {_fz(x) for x in maps}
                 ok = True
